@@ -203,6 +203,9 @@ def streams(pid, tier, seed):
     elif pid == "C02":
         add("sweepChars", gen.sweep_chars(stride(2, 1), seed))
         add("text", text_stream(seed, 15000 if q else 300000))
+        # byte pairs (p, b) with stored-code-point(p) = raw b, as read out of the compiled library on this run
+        du = infra.LAST_DUMPS.get("u")
+        add("confusable", gen.sweep_confusable({b: v[1] for b, v in du["g0"].items() if v[0]} if du else None))
         if not q: add("sweepCharsN", gen.sweep_chars(1, seed), "n")
     elif pid == "C03":
         add("mixed", mixed_stream(seed, 15000 if q else 200000)[0])
@@ -213,6 +216,8 @@ def streams(pid, tier, seed):
         # or rewritten without any accepted character (seeded change C04-b was missed without this stream)
         add("rtfew", text_stream(seed + 2, 12000 if q else 300000, texts=(2,), few_cells=True, toggles=True))
         add("textfew", text_stream(seed + 3, 8000 if q else 200000, few_cells=True, toggles=True))
+        # every threshold pair x every error level of the stored group x A/B switch-back with all text rejected
+        add("rtlevels", gen.sweep_rt_levels(stride(2, 1), seed))
     elif pid == "C05":
         add("wild", c05_stream(seed, 20000 if q else 300000))
         add("wildN", c05_stream(seed + 1, 8000 if q else 100000), "nh")
@@ -586,6 +591,14 @@ def run_property(pid, tier, seed):
                 pi, e = du["eccbad"][0] if du["eccbad"] else (0, 0)
                 path = runner.write_replay(pid, "nibble", ["property=C11 kind=table (T1, complete sweep of all 65 536 PI values x 256 ECC): the country depends on more than the PI country nibble"], ["new", "p %d 4096 %d 0 0 0 0 0" % (pi, e)])
                 ctx.add_violation(path, "country depends on PI bits outside the nibble")
+            if pid == "C18":
+                uns = du.get("unstable", []) + dn.get("unstable", [])
+                ctx.cov["kept_pointers_rechecked"] = 256 * 8 * 2
+                FN = {"PTYNAME": "rdsparser_pty_lookup_name", "PTYSHORT": "rdsparser_pty_lookup_short", "PTYLONG": "rdsparser_pty_lookup_long", "CNAME": "rdsparser_country_lookup_name", "CISO": "rdsparser_country_lookup_iso"}
+                for tag, arg, rbds, first, later in uns[:3]:
+                    call = "%s(%d%s)" % (FN[tag], arg, (", true" if rbds else ", false") if tag.startswith("PTY") else "")
+                    path = runner.write_replay(pid, "unstable-%s-%d" % (tag, arg & 255), ["property=C18 kind=runtime (T1 extractor, every lookup over its whole domain): the string returned by %s is not constant: it read %r when returned and %r through the same pointer after the remaining lookups had been made (%d of 4096 kept pointers changed)" % (call, first.decode("latin-1"), later.decode("latin-1"), len(uns)), "lookup %s ; keep the pointer ; call the same function for every other argument ; read the pointer again" % call], [])
+                    ctx.add_violation(path, "lookup result is not a constant string: " + call)
             ctx.cov["ecc_nibble_only_sweep"] = du["const"].get("eccNibbleOnlyViolations", "not run in this tier")
         except infra.BuildError as e:
             msg = str(e)
